@@ -136,6 +136,20 @@ def execute(ctx, case):
         np.random.seed(case["_seed"])
         b2 = ref.bootstrap_sample(BootstrapConfig(sampling_method="replacement"))
         C(b1 == b2, "bootstrap sample under the same seed differs from the equivalent Scores", "fraud-bootstrap")
+        # every sampling configuration, and the derived bootstrap queries: same seed, same result as the equivalent Scores
+        for cfg_kw in (dict(sampling_method="replacement", smoothing=True), dict(sampling_method="dynamic", smoothing=True, stratified_sampling="by_label"),
+                       dict(sampling_method="single_pass"), dict(sampling_method="replacement", stratified_sampling="by_label"), dict(sampling_method="proportion", ratio=0.6)):
+            if cfg_kw.get("smoothing") and np.asarray(ref.pos).dtype.kind != "f":
+                continue  # kernel smoothing is exercised on floating-point scores only
+            outs = []
+            for obj in (fs, ref):
+                np.random.seed(case["_seed"] + 3)
+                smp = [obj.bootstrap_sample(BootstrapConfig(**cfg_kw)) for _ in range(3)]
+                np.random.seed(case["_seed"] + 4)
+                ci_ = obj.bootstrap_ci("fnr", threshold=np.array([0.02, 0.5, 0.97]), config=BootstrapConfig(nb_samples=8, bootstrap_method="quantile", **cfg_kw))
+                outs.append((smp, ci_))
+            C(all(a_ == b_ for a_, b_ in zip(outs[0][0], outs[1][0])) and np.array_equal(outs[0][1], outs[1][1], equal_nan=True),
+              "bootstrap samples / intervals under the same seed differ from the equivalent Scores", "fraud-bootstrap-cfg", config={k: str(v) for k, v in cfg_kw.items()})
     sw, rsw = fs.swap(), ref.swap()
     C(sw == rsw, "swap differs from the equivalent Scores", "fraud-swap")
     # from_labels with an arbitrary genuine label
